@@ -9,6 +9,10 @@ import re, struct
 from vlib.engine import Prop, Failure
 from props import msagen as G
 
+ROUNDTRIP_PROVED = ["afa", "phylip", "phylips", "clustal", "clustallike", "psiblast", "a2m (no insert columns)", "selex (with #=RF/#=CS/#=MM/#=SS/#=SA)",
+                    "pfam and stockholm multi-block (names, rows, parsed #=GC, comments, #=GF incl. unparsed tags and cut-off flags)"]
+ROUNDTRIP_NOT_PROVED = ["round-trip THEOREM missing (executable writer + reader models compared with the library, monitors only): stockholm/pfam with unparsed #=GC, #=GS, #=GR; "
+                        "a2m with insert columns; numeric value of weights / cut-offs", "autodetection of SELEX / PSI-BLAST / PHYLIP output (monitors only)"]
 MODELLED = ["afa", "a2m", "psiblast", "clustal", "clustallike", "phylip", "phylips", "selex", "stockholm", "pfam"]      # writer + reader models, bytes and re-read alignment compared
 WRITER_ONLY = []
 ALL_FORMATS = G.FORMATS
@@ -78,7 +82,7 @@ class C03(Prop):
         "phylip_roundtrip", "phylips_write_accepted", "phylip_write_accepted", "phylip_rewrite_same_text", "phylip_rewrite_same_digital",
         "phylip_preserves_names_rows", "phylip_write_deterministic") + ('stockholm_write_deterministic', 'stoDigSymOk_of', 'pfam_roundtrip_plain_text', 'pfam_roundtrip_plain_digital', 'stockholm_roundtrip_plain_text', 'stockholm_roundtrip_plain_digital', 'stockholm_roundtrip_plain', 'stockholm_write_accepted', 'stockholm_preserves_names_rows', 'exSto_plain', 'exSto_writable', 'exStoDna_writable', 'exSto201_writable', 'stockholm_roundtrip_gc_gf', 'exStoAnn_writable', 'stockholm_roundtrip_header', 'cutoff_token_accepted', 'stockholm_rewrite_same', 'stockholm_rewrite_same_text', 'stockholm_rewrite_same_digital') + ('selex_write_deterministic', 'selexDigSymOk_of', 'selex_roundtrip_plain_text', 'selex_roundtrip_plain_digital', 'selex_roundtrip_plain', 'selex_write_accepted', 'selex_write_accepted_digital', 'selex_preserves_names_rows', 'selex_rewrite_same', 'selex_rewrite_same_digital', 'exSlx_plain', 'exSlx_writable', 'exSlxDna_writable', 'a2m_write_deterministic', 'a2mDigSymOk_of', 'a2m_roundtrip_text', 'a2m_roundtrip_digital', 'a2m_roundtrip', 'a2m_write_accepted', 'a2m_write_accepted_digital', 'a2m_rows_text', 'a2m_preserves_names_rows', 'a2m_rows_digital', 'a2m_rewrite_same_text', 'a2m_rewrite_same_digital', 'lt_two_cases', 'exA2m_writable', 'exA2mDna_writable') + ('clustal_write_deterministic', 'cluDigSymOk_of', 'clustal_roundtrip_text', 'clustal_roundtrip_digital', 'clustal_roundtrip', 'clustal_write_accepted', 'clustal_rewrite_same_text', 'clustal_rewrite_same_digital', 'clustal_preserves_names_rows', 'exClu1_writable', 'exClu_writable', 'exCluDna_writable', 'psiblast_write_deterministic', 'psiblast_roundtrip_text', 'psiDigSymOk_of', 'psiblast_roundtrip_digital', 'psiblast_roundtrip', 'psiblast_write_accepted', 'psiblast_rewrite_same_text', 'psiblast_preserves_names_rows', 'exPsi1_writable', 'exPsi_writable', 'exPsiDna_writable') + AUTODETECT_THEOREMS + SELEX_ANN_THEOREMS] + [
         "EaselModel.Msafile.afaRead_write", "EaselModel.Msafile.stoRead_write", "EaselModel.Msafile.splitLines_join", "EaselModel.Msafile.afaDigitalWritable_writable",
-        "EaselModel.Msafile.guess_stockholmWrite", "EaselModel.Msafile.guess_clustalWrite", "EaselModel.Msafile.guess_afaWrite", "EaselModel.Msafile.guess_a2mWrite", "EaselModel.Msafile.cutsetOf_eq", "EaselModel.Msafile.head_steps", "EaselModel.Msafile.fmtF1_realTok", "EaselModel.Msafile.stockholmWrite_project"] + [
+        "EaselModel.Msafile.guess_stockholmWrite", "EaselModel.Msafile.guess_clustalWrite", "EaselModel.Msafile.guess_afaWrite", "EaselModel.Msafile.guess_a2mWrite", "EaselModel.Msafile.cutsetOf_eq", "EaselModel.Msafile.head_steps", "EaselModel.Msafile.fmtF1_realTok", "EaselModel.Msafile.stockholmWrite_project", "EaselModel.Msafile.phylipWriteW_unset", "EaselModel.Msafile.phylipWriteW_default"] + [
         "EaselModel.Msafile." + t for t in ("stockholmWrite_eq", "stockholmWrite_magic", "blockStarts_length", "blockStarts_lt", "stockholm_blocks", "pfam_blocks",
                                             "strtokLF_tokens", "hasDupNames_iff", "phylipWrite_header", "phylipInterleaved_empty", "phylip_blocks", "phyRowLine_first",
                                             "padRight_length", "padTrunc_length", "consensusLine_length", "textConsensusLine_chars", "digitalConsChar_range",
@@ -87,22 +91,30 @@ class C03(Prop):
     claimed = True
     technique = ("Lean 4 proof (writers as functions Msa -> Bytes composed with the C01 reader models) + exact differential correspondence of written bytes "
                  "and re-read alignments with the ASan/UBSan/LSan-built library + round-trip monitors on all ten formats")
-    level_text = ("PARTIAL. Theorems (alignments of any size): for aligned FASTA, PHYLIP (sequential and interleaved; names come back cut to 10 characters) and - for alignments "
-                  "that carry names and rows only - Pfam and multi-block Stockholm, read(write m) = ok(project m) with nothing left unread, in text mode and in digital "
-                  "mode with the amino/DNA/RNA alphabets (tables regenerated from the C code each run), where `Writable` is an explicit decidable-style list of what AFA "
-                  "can carry (names without blank/tab/NUL, descriptions not starting with a blank, residues graphic and not '>', >=1 sequence and column) and `project` "
-                  "keeps names, rows and descriptions exactly; the output is a function of the alignment, is accepted by the reader, the next read is EOF and the "
-                  "re-read alignment is well formed. The model (writer bytes AND re-read alignment) is tied to the working tree by an exact differential run. "
-                  "ALL ten formats x text/amino/DNA/RNA are additionally exercised on the real ASan/UBSan/LSan-built library: write -> read (declared and "
-                  "autodetected) -> field-by-field comparison under each format's documented conventions (Stockholm/Pfam: every field; PHYLIP: 10-character names; "
-                  "A2M/PSI-BLAST: case and gap conventions, pyrrolysine written as X) -> re-write and byte comparison.")
-    level_note = ("Lean models of ALL ten writers (incl. stockholm_write with margins, wrapping, unique-name forcing and exact printf %.2f/%.1f) and ten readers are compared "
-                  "byte for byte / field for field with the library on every case. Round-trip THEOREMS are still missing for Stockholm/Pfam WITH annotation (weights and "
-                  "cut-offs cannot be stated: the reader model does not carry their numeric value), A2M, Clustal, PSI-BLAST, SELEX: there the round trip is checked by the "
-                  "executable models + monitors only (support, not proof); autodetection likewise. "
-                  "printf/strtod of 2-/1-decimal weights and cut-offs is trusted. Known finding C03:stockholm:first-mention-order: the Stockholm reader numbers sequences and "
-                  "#=GR tags in order of first mention (#=GS lines included), so partial per-sequence annotation changes sequence order on re-reading; the generator keeps the "
-                  "first #=GS kind total and gives the first sequence every #=GR tag. PHYLIP autodetection of single-sequence or single-block output is documented as ambiguous.")
+    level_text = ("PARTIAL (what is missing is listed at the end). Theorems, for alignments of ANY size, text mode and digital mode with the amino/DNA/RNA alphabets (tables regenerated "
+                  "from the C code each run), for ALL TEN formats: read(write m) = ok(project m) with nothing left unread, where `<Fmt>TextWritable` / `<Fmt>DigitalWritable` are explicit "
+                  "lists of conditions (>=1 sequence and column; names without blank/tab/NUL/LF [Stockholm: pairwise distinct, not starting with # or //; Clustal: a row is not mistaken "
+                  "for a consensus line]; residues graphic / digital rows well formed) and `project` is the documented loss of the format: aligned FASTA (names, descriptions, rows exactly), "
+                  "PHYLIP sequential and interleaved (names cut to 10 characters, rows under the output rectification), Clustal and Clustal-like (names, rows), PSI-BLAST (names, rows, the RF "
+                  "line the reader synthesises; O written as X; every column a consensus column or all '-'), A2M without insert columns (names, descriptions, rows under the case/gap convention: letters upper-cased, O as X, non-residues "
+                  "as '-'), SELEX with #=RF/#=CS/#=MM and per-sequence #=SS/#=SA (any number of 60-column blocks), Pfam and multi-block Stockholm with names, rows, the five parsed #=GC lines, "
+                  "comments, #=GF ID/AC/DE/AU, unparsed #=GF tags in order, and which score cut-offs are set; for each: the output is a function of the alignment (`_write_deterministic`), is "
+                  "accepted, the next read is EOF and the re-read alignment is well formed (`_write_accepted`), what is preserved exactly (`_preserves_names_rows`, `selex_ann_preserves`, "
+                  "`a2m_rows_text/digital`), and write(read(write m)) = write m (`_rewrite_same`, text and digital; Stockholm for ANY annotation without weights/cut-offs). Autodetection of "
+                  "library-written Stockholm/Pfam, Clustal, Clustal-like, aligned FASTA output selects the format for EVERY alignment, and open(auto) + read gives the same alignment "
+                  "(`_autodetect`, `_autodetect_roundtrip_text/digital`); A2M output without the .a2m suffix is detected as aligned FASTA (theorem, documented behaviour). "
+                  "The models (all ten writers incl. the PHYLIP name-width / residues-per-line options, all ten readers) are tied to the working tree by an exact differential run: written bytes, "
+                  "re-read alignment field by field, second read, re-written bytes; each writer is called through esl_msafile_Write AND directly. ALL ten formats x text/amino/DNA/RNA are "
+                  "additionally monitored on the real ASan/UBSan/LSan-built library: write -> read (declared and autodetected) -> field-by-field comparison under each format's conventions "
+                  "(Stockholm/Pfam: every field incl. weight and cut-off values) -> re-write and byte comparison. "
+                  "NOT PROVED (monitors + executable models only): Stockholm/Pfam with unparsed #=GC, #=GS (accessions, descriptions, weights, other tags) and #=GR lines; A2M with insert "
+                  "columns (the reader's padding); numeric VALUE of weights and cut-offs (the reader model keeps set/unset); autodetection of SELEX/PSI-BLAST/PHYLIP output.")
+    level_note = ("Lean models of ALL ten writers (incl. stockholm_write with margins, wrapping, unique-name forcing and exact printf %.2f/%.1f; PHYLIP with ESL_MSAFILE_FMTDATA namewidth/rpl) "
+                  "and ten readers are compared byte for byte / field for field with the library on every case. printf/strtod of 2-/1-decimal weights and cut-offs is trusted "
+                  "(cutoff_token_accepted proves that %.1f of any finite float is a token the cut-off parser accepts). Known finding C03:stockholm:first-mention-order: the Stockholm reader numbers "
+                  "sequences and #=GR tags in order of first mention (#=GS lines included), so partial per-sequence annotation changes sequence order on re-reading; the generator keeps the "
+                  "first #=GS kind total and gives the first sequence every #=GR tag. PHYLIP autodetection of single-sequence or single-block output is documented as ambiguous; with a "
+                  "nonstandard name width autodetection is heuristic and only monitored for crash-freedom.")
     diverge_is_violation = False
     quick_budget_s = 75
     thorough_budget_s = 900
@@ -245,6 +257,22 @@ class C03(Prop):
             if a.alen > 200: stats["multi_block"] += 1
             if a.gf or a.gc or a.gs or a.gr or a.com: stats["annotated"] += 1
             out.append({"name": "rt%d-%s-%s" % (i, fmt, abc), "dup": a.dup, "ops": ["rt fmt=%s abc=%s " % (fmt, abc) + " ".join(aln_fields(a))]})
+        # every writer op called DIRECTLY (esl_msafile_<fmt>_Write instead of the esl_msafile_Write dispatch), all ten formats x text/digital,
+        # and the PHYLIP writers' format options (ESL_MSAFILE_FMTDATA namewidth / rpl; 0 = unset) with the reader opened at the same name width
+        nd = 400 if quick else 6000
+        for i in range(nd):
+            fmt = ALL_FORMATS[i % len(ALL_FORMATS)] if i % 3 else ("phylip", "phylips")[(i // 3) % 2]
+            abc = rng.choice(["text", "text", "amino", "dna", "rna"])
+            a = self.gen_aln(rng, fmt, abc, quick)
+            opt = ""
+            if fmt in ("phylip", "phylips") and rng.random() < 0.8:
+                nw = rng.choice([0, 1, 2, 5, 9, 10, 11, 14, 15, 25, 40, 100]); rpl = rng.choice([0, 1, 2, 7, 59, 60, 61, 199, 200, 1000])
+                if rng.random() < 0.3: nw = max(len(x) for x in a.names) + rng.choice([-1, 0, 1])      # the longest name fills the field exactly / is cut by one
+                if rng.random() < 0.2: rpl = max(a.alen + rng.choice([-1, 0, 1]), 0)                    # one line exactly / one residue over
+                opt = "nw=%d rpl=%d " % (max(nw, 0), rpl)
+            stats["direct"] = stats.get("direct", 0) + 1
+            if opt: stats["phylip_options"] = stats.get("phylip_options", 0) + 1
+            out.append({"name": "direct%d-%s-%s" % (i, fmt, abc), "dup": a.dup, "ops": ["rt fmt=%s abc=%s via=direct %s" % (fmt, abc, opt) + " ".join(aln_fields(a))]})
         return out
 
     # ------------------------------------------------------------------------------------------
@@ -252,7 +280,7 @@ class C03(Prop):
         if line.startswith("fault"): return "fault"
         return line.replace(" leak", "")
 
-    SKIP = ("cmp=", "aopen=", "awhy=", "afmt=", "ard=", "achk=", "asame=", "gopen=", "gabc=")
+    SKIP = ("cmp=", "aopen=", "awhy=", "afmt=", "anw=", "ard=", "achk=", "asame=", "gopen=", "gabc=")
 
     @staticmethod
     def _mask(line):
@@ -296,6 +324,10 @@ class C03(Prop):
             kv = self._kv(op)
             fmt, abc = kv["fmt"], kv.get("abc", "text")
             what = "fmt=%s abc=%s" % (fmt, abc)
+            opts = kv.get("via") == "direct" and ("nw" in kv or "rpl" in kv) and fmt in ("phylip", "phylips")
+            nw = (int(kv.get("nw", 0)) or 10) if opts else 10            # PHYLIP writer options (0 = unset)
+            rpl = (int(kv.get("rpl", 0)) or 60) if opts else 60
+            if kv.get("via"): what += " via=%s" % kv["via"] + (" nw=%d rpl=%d" % (nw, rpl) if opts else "")
             toks = l.split()
             t = dict(x.split("=", 1) for x in toks if "=" in x and not x.startswith(("{", "m={")))
             dumps = [x[2:] if x.startswith("m={") else x for x in toks if x.startswith(("{", "m={"))]
@@ -313,11 +345,19 @@ class C03(Prop):
             # phylips" (eslEAMBIGUOUS from esl_msafile_phylip_CheckFileFormat). The harness asks the guesser for its message (awhy=).
             ambiguous_phylip = fmt in ("phylip", "phylips") and t.get("awhy") == "ambiguous"
             auto_ok = t.get("aopen") == "ok"
-            if not auto_ok and not (t.get("aopen") == "enoformat" and ambiguous_phylip):
+            # PHYLIP written with a nonstandard name width: the autodetector has to INFER the width from the columns (documented as heuristic:
+            # names that look like residues shift it), so there only "no crash, documented status" is demanded of autodetection
+            odd_width = opts and nw != 10
+            if odd_width:
+                if t.get("aopen") not in ("ok", "enoformat"): return Failure("monitor", "autodetection of PHYLIP output with name width %d returned %s (%s)" % (nw, t.get("aopen"), what))
+                if auto_ok and t.get("ard") not in ("ok", "eformat"): return Failure("monitor", "autodetected read of PHYLIP output with name width %d returned %s (%s)" % (nw, t.get("ard"), what))
+                if auto_ok and t.get("ard") == "ok" and t.get("achk") != "ok": return Failure("monitor", "autodetected read gave a malformed alignment: %s (%s)" % (t.get("achk"), what))
+            if not odd_width and not auto_ok and not (t.get("aopen") == "enoformat" and ambiguous_phylip):
                 return Failure("monitor", "autodetection failed on library-written output: %s (%s)" % (t.get("aopen"), what))
             exp_auto = {"pfam": "stockholm", "a2m": "afa", "psiblast": "selex", "clustallike": "clustallike"}.get(fmt, fmt)
             # one sequence or one block: the interleaved and the sequential output are the same bytes, either answer is right
-            same_layout = fmt in ("phylip", "phylips") and (kv.get("n") == "1" or int(kv.get("alen", "0")) <= 60)
+            same_layout = fmt in ("phylip", "phylips") and (kv.get("n") == "1" or int(kv.get("alen", "0")) <= rpl)
+            if odd_width: auto_ok = False                                   # nothing further is demanded of autodetection there
             if auto_ok and t.get("afmt") != exp_auto and not (same_layout and t.get("afmt") in ("phylip", "phylips")):
                 return Failure("monitor", "autodetection chose %s for %s output (%s)" % (t.get("afmt"), fmt, what))
             if len(dumps) < 2: return Failure("monitor", "harness answer incomplete (%s)" % what)
@@ -332,7 +372,7 @@ class C03(Prop):
                 com2 = [x for x in m2.get("com", "").split(",") if x and x != warn]
                 if com2: m2["com"] = ",".join(com2)
                 else: m2.pop("com", None)
-            f = self.compare_msa(fmt, abc, m, m2)
+            f = self.compare_msa(fmt, abc, m, m2, nw)
             if f: return Failure("monitor", "%s (%s)" % (f, what), detail={"orig": dumps[0][:1500], "reread": dumps[1][:1500]})
             if auto_ok and t.get("afmt") == fmt and t.get("ard") == "ok" and t.get("asame") != "yes":
                 return Failure("monitor", "autodetected read differs from declared read (%s)" % what)
@@ -340,11 +380,11 @@ class C03(Prop):
                 return Failure("monitor", "autodetected read of library-written output returned %s (%s)" % (t.get("ard"), what))
         return None
 
-    def compare_msa(self, fmt, abc, m, m2):
+    def compare_msa(self, fmt, abc, m, m2, namewidth=10):
         if m["n"] != m2["n"]: return "number of sequences changed %s -> %s" % (m["n"], m2["n"])
         names, names2 = m["nm"].split(","), m2["nm"].split(",")
         if fmt in ("phylip", "phylips"):
-            names = [(unhex(x) or b"")[:10].hex() or "-" for x in names]
+            names = [(unhex(x) or b"")[:namewidth].hex() or "-" for x in names]
         if names != names2: return "sequence names changed: %s -> %s" % (names[:3], names2[:3])
         if m["dig"] != m2["dig"]: return "digital flag changed"
         if fmt in ("stockholm", "pfam"):
@@ -387,11 +427,14 @@ class C03(Prop):
 
     def extra_evidence(self, ctx):
         return {"modelled_formats": MODELLED,
-                "roundtrip_theorem_formats": ["afa", "phylip", "phylips", "pfam (names + rows)", "stockholm (names + rows, multi-block)"],
-                "unmodelled_formats": ["round-trip THEOREM missing (executable writer + reader models compared with the library, monitors only): "
-                                       "stockholm/pfam with annotation, a2m, clustal, clustallike, psiblast, selex", "auto (format autodetection)"],
-                "claim": "partial: read(write m) = ok(project m) is proved for the roundtrip_theorem_formats; every format's writer and reader model is tied to the library "
-                         "byte for byte on each run; the remaining round trips and autodetection are covered by monitors on the real library (support, not proof)",
+                "roundtrip_theorem_formats": ROUNDTRIP_PROVED,
+                "unmodelled_formats": ROUNDTRIP_NOT_PROVED,
+                "writer_ops_compared": ["esl_msafile_Write (dispatch, 10 formats)", "esl_msafile_stockholm_Write (STOCKHOLM, PFAM)", "esl_msafile_a2m_Write", "esl_msafile_psiblast_Write",
+                                        "esl_msafile_selex_Write", "esl_msafile_afa_Write", "esl_msafile_clustal_Write (CLUSTAL, CLUSTALLIKE)",
+                                        "esl_msafile_phylip_Write (PHYLIP, PHYLIPS; opt_fmtd NULL and with namewidth/rpl set)"],
+                "claim": "partial: read(write m) = ok(project m), acceptance, determinism and write(read(write m)) = write m are proved for the roundtrip_theorem_formats; every format's "
+                         "writer and reader model is tied to the library byte for byte on each run; what is listed under unmodelled_formats is covered by the executable models + monitors "
+                         "on the real library (support, not proof)",
                 "input_distribution": ctx.stats.get("generator", {})}
 
 
